@@ -64,6 +64,11 @@ pub fn gen(prop: &str, scen: &str, _k: u64, seed: u64, tier: &str) -> Case {
             case.set("limit_delta", *r_in.pick(&[-1000000i64, -1, 0, 1, 1000]));
             case.set("hdr_dict", *r_in.pick(&[-1i64, 4096, 1 << 20, 1 << 26, 1 << 30, 0xFFFF_FFF0, 0xFFFF_FFFF]));
             case.set("hdr_props", *r_in.pick(&[-1i64, 0, 93, 224]));
+            // a declared size (smaller than / equal to / larger than the dictionary, or unknown)
+            case.set("hdr_size", *r_in.pick(&[-1i64, -1, 0, 1, 1500, 4095, 4097, 1 << 20, 1 << 34]));
+            // and optionally a preset dictionary handed to the reader
+            case.set("with_preset", r_in.pct(40) as i64);
+            case.set("preset_len", *r_in.pick(&[1i64, 2048, 5000, 70000]));
         }
     }
     case
@@ -201,6 +206,10 @@ fn limit(case: &Case, data: &[u8], ctx: &mut Ctx) -> Option<Violation> {
     if case.knob_or("hdr_props", -1) >= 0 {
         stream[0] = case.knob("hdr_props") as u8;
     }
+    if case.knob_or("hdr_size", -1) >= 0 {
+        stream[5..13].copy_from_slice(&(case.knob("hdr_size") as u64).to_le_bytes());
+    }
+    let preset: Option<Vec<u8>> = if case.knob("with_preset") != 0 { Some(InputSpec::new("text", case.knob_or("preset_len", 100) as usize, 5).gen()) } else { None };
     let h = simcore::parsers::lzma_header(&stream)?;
     let need = match lz::lzma_get_memory_usage_by_props(h.dict, h.props) {
         Ok(n) => n as i64,
@@ -221,13 +230,23 @@ fn limit(case: &Case, data: &[u8], ctx: &mut Ctx) -> Option<Violation> {
     ctx.ev("need_kib", need as u64);
     ctx.ev("limit_kib", lim as u64);
     let scope = Scope::begin();
-    let r = guarded(|| lz::LZMAReader::new_mem_limit(stream.as_slice(), lim, None).map(|_| ()));
+    let r = guarded(|| lz::LZMAReader::new_mem_limit(stream.as_slice(), lim, preset.as_deref()).map(|_| ()));
     let largest = scope.largest();
+    let peak = scope.peak();
+    ctx.ev("preset", preset.as_ref().map(|p| p.len() as u64).unwrap_or(0));
     match r {
         Err((loc, msg)) => Some(classify_panic(comp, &loc, &msg)),
         Ok(Ok(())) => {
             if (lim as i64) < need {
-                Some(Violation::new("limit-not-enforced", comp, "new_mem_limit", format!("needs {need} KiB, limit {lim} KiB, reader was created")))
+                // The reader may legitimately size its window by a smaller declared size; what
+                // must never happen is that it allocates more than the limit it was given.
+                if peak > (lim as usize + 64) * 1024 {
+                    return Some(Violation::new("limit-not-enforced", comp, "new_mem_limit", format!("header dict {} size {:#x} preset {:?}: limit {lim} KiB, reader was created and allocated {} KiB (estimate for the header {need} KiB)", h.dict, h.size, preset.as_ref().map(|p| p.len()), peak / 1024)));
+                }
+                ctx.metric("created_below_header_estimate_within_limit", 1);
+                None
+            } else if peak > (need as usize + 64) * 1024 {
+                Some(Violation::new("estimate-too-low", comp, "new_mem_limit", format!("header dict {} size {:#x}: estimate {need} KiB, construction allocated {} KiB", h.dict, h.size, peak / 1024)))
             } else {
                 None
             }
